@@ -182,11 +182,14 @@ TIGHT = dict(atol=1e-11, rtol=1e-14)
 BLOCK = ('runonce', 'lbgs', 'lbjac')
 
 
-def _linear_solver(kind, assemble):
+def _linear_solver(kind, assemble, rhs=None):
+    kw = {}
+    if rhs is not None and kind in ('direct', 'krylov'):
+        kw['rhs_checking'] = dict(rhs) if isinstance(rhs, dict) else bool(rhs)
     if kind == 'direct':
-        return om.DirectSolver(assemble_jac=assemble)
+        return om.DirectSolver(assemble_jac=assemble, **kw)
     if kind == 'krylov':
-        s = om.ScipyKrylov(assemble_jac=assemble, maxiter=500, atol=1e-13, rtol=1e-14, restart=60)
+        s = om.ScipyKrylov(assemble_jac=assemble, maxiter=500, atol=1e-13, rtol=1e-14, restart=60, **kw)
         return s
     if kind == 'lbgs':
         return om.LinearBlockGS(assemble_jac=assemble, maxiter=300, err_on_non_converge=True, **TIGHT)
@@ -195,6 +198,18 @@ def _linear_solver(kind, assemble):
     if kind == 'runonce':
         return om.LinearRunOnce(assemble_jac=assemble)
     raise ValueError(kind)
+
+
+def rhs_stats(prob):
+    """summed cache statistics of every LinearRHSChecker of the model (needs collect_stats)"""
+    tot = {}
+    for sub in prob.model.system_iter(include_self=True, recurse=True):
+        ls = getattr(sub, '_linear_solver', None)
+        chk = getattr(ls, '_lin_rhs_checker', None) if ls is not None else None
+        if chk is not None and chk._stats is not None:
+            for k, v in chk._stats.items():
+                tot[k] = tot.get(k, 0) + int(v)
+    return tot
 
 
 def build(spec, cfg):
@@ -319,13 +334,14 @@ def build(spec, cfg):
                 g.nonlinear_solver = om.NonlinearBlockGS(maxiter=400, err_on_non_converge=True, **TIGHT)
             g.nonlinear_solver.options['iprint'] = -1
         ls = None
+        rhs = cfg.get('rhs')
         if lin in ('direct', 'krylov') and glen == 0:
-            ls = _linear_solver(lin, assemble)
+            ls = _linear_solver(lin, assemble, rhs)
         elif lin in ('direct_cyc', 'krylov_cyc'):
-            ls = _linear_solver(lin[:-4], assemble) if is_cyc else _linear_solver('runonce', False)
-        elif lin == 'direct_sub':
+            ls = _linear_solver(lin[:-4], assemble, rhs) if is_cyc else _linear_solver('runonce', False)
+        elif lin in ('direct_sub', 'krylov_sub'):
             if glen == 1:
-                ls = _linear_solver('direct', assemble)
+                ls = _linear_solver(lin[:-4], assemble, rhs)
             elif glen == 0:
                 ls = _linear_solver('lbgs' if is_cyc else 'runonce', False)
         elif lin in ('lbgs', 'lbjac'):
